@@ -16,9 +16,9 @@ type Civil struct {
 	Hour, Minute, Second int
 	Weekday              int // 0 = Sunday … 6 = Saturday
 	ISOYear, ISOWeek     int
-	ISOWeekday           int // 1 = Monday … 7 = Sunday
-	Quarter              int // 1..4, January-March = 1
-	YearDay              int // 0-based
+	ISOWeekday           int   // 1 = Monday … 7 = Sunday
+	Quarter              int   // 1..4, January-March = 1
+	YearDay              int   // 0-based
 	Days                 int64 // local days since 1970-01-01
 }
 
@@ -78,7 +78,7 @@ func ymd(days int64) (y, m, d, yday int) {
 	const d400 = 146097 // days in 400 years
 	z := days + 719468  // days since 0000-03-01
 	era := floorDiv(z, d400)
-	doe := z - era*d400                                   // [0, 146096]
+	doe := z - era*d400                                    // [0, 146096]
 	yoe := (doe - doe/1460 + doe/36524 - doe/146096) / 365 // [0, 399]
 	doy := doe - (365*yoe + yoe/4 - yoe/100)               // [0, 365], March-based
 	mp := (5*doy + 2) / 153                                // [0, 11], 0 = March
